@@ -79,6 +79,8 @@ def gen_case(rng, i):
     if rng.integers(4) == 0:
         B = B * float(rng.uniform(0.5, 2.0))            # intensity mismatch as well
     B = np.abs(B) + 1e-3
+    if i % 6 == 1:
+        B = np.maximum(np.round(B), 1.0)                # integer-valued targets (photon counts): handed over as int64
     given = bool(rng.integers(2))
     s.update({"B": B, "neutral": (rng.uniform(0.5, 1.5, m) if given else None),
               "objective": ["unity", "max"][rng.integers(2)],
